@@ -178,8 +178,11 @@ pub fn run_c09(ctx: &mut Ctx) -> (String, Value, Vec<String>) {
     // sparse supplies and long demands (hundreds of ticks, many iterations of an iterative
     // inverse): every demand up to 4P for P up to 40 / 64, specialised and default implementation
     let pwide = if ctx.quick() { 40u64 } else { 64 };
-    for p in (pmax + 1)..=pwide {
-        let mut qs: Vec<u64> = vec![1, 2, 3, p / 2, p - 1];
+    let mut ps: Vec<u64> = ((pmax + 1)..=pwide).collect();
+    // very sparse reservations (blackouts of hundreds of ticks)
+    ps.extend(if ctx.quick() { vec![175u64] } else { vec![100u64, 175, 250] });
+    for p in ps {
+        let mut qs: Vec<u64> = if p > 64 { vec![1, 2] } else { vec![1, 2, 3, p / 2, p - 1] };
         qs.sort();
         qs.dedup();
         for q in qs {
@@ -224,6 +227,32 @@ pub fn run_c09(ctx: &mut Ctx) -> (String, Value, Vec<String>) {
                             Err(e) => ctx.violation("supply::Constrained::service_time#panic", &format!("supply::Constrained({q},{dl},{p}).service_time({dem}) {which} panicked: {e}"), "sbf-case", json!({"spec": spec, "demand": dem})),
                         }
                     }
+                }
+            }
+        }
+    }
+    // beyond the automaton's parameter range (P > 255): service_time must still be the exact
+    // inverse of the same object's provided_service (specialised and default implementation)
+    for (q, dl, p) in [(1u64, 600u64, 600u64), (10, 1000, 1000), (10, 50, 1000), (3, 4000, 4000)] {
+        let spec = SupplySpec::Constrained { q, dl, p };
+        let sup = spec.build();
+        let opaque = SupplySpec::Opaque(Box::new(spec.clone())).build();
+        for dem in [1u64, 2, q, q + 1, 2 * q + 1, 173, 5 * q] {
+            for (which, s) in [("", &sup), ("(default impl via opaque wrapper)", &opaque)] {
+                evals += 1;
+                let r = catch(|| {
+                    let t = du(s.service_time(crate::spec::s(dem)));
+                    (t, su(sup.provided_service(d(t))), if t > 0 { su(sup.provided_service(d(t - 1))) } else { 0 })
+                });
+                match r {
+                    Ok((t, at, before)) if at >= dem && (t == 0 || before < dem) => {}
+                    Ok((t, at, before)) => ctx.violation(
+                        &format!("supply::Constrained::service_time{}#not-exact-inverse+sparse", if which.is_empty() { "" } else { "-default" }),
+                        &format!("supply::Constrained({q},{dl},{p}).service_time({dem}) {which} = {t}, but provided_service({t}) = {at} and provided_service({}) = {before}", t.saturating_sub(1)),
+                        "sbf-inverse",
+                        json!({"spec": spec, "demand": dem, "default": !which.is_empty()}),
+                    ),
+                    Err(e) => ctx.violation("supply::Constrained::service_time#panic", &format!("supply::Constrained({q},{dl},{p}).service_time({dem}) {which} panicked: {e}"), "sbf-inverse", json!({"spec": spec, "demand": dem, "default": !which.is_empty()})),
                 }
             }
         }
@@ -638,6 +667,22 @@ pub fn run_c10(ctx: &mut Ctx) -> (String, Value, Vec<String>) {
             "automata validated against the literal pairwise-distance definitions on every 0/1/2-valued release vector up to the stated length".into(),
         ],
     )
+}
+
+pub fn replay_sbf_inverse(case: &Value) -> bool {
+    let spec: SupplySpec = serde_json::from_value(case["spec"].clone()).unwrap();
+    let dem = case["demand"].as_u64().unwrap();
+    let sup = spec.build();
+    let s_ = if case["default"].as_bool().unwrap_or(false) { SupplySpec::Opaque(Box::new(spec.clone())).build() } else { spec.build() };
+    let r = catch(|| {
+        let t = du(s_.service_time(s(dem)));
+        (t, su(sup.provided_service(d(t))), if t > 0 { su(sup.provided_service(d(t - 1))) } else { 0 })
+    });
+    println!("replay: (service_time, sbf there, sbf one tick earlier) = {:?} for demand {dem}", r);
+    match r {
+        Ok((t, at, before)) => !(at >= dem && (t == 0 || before < dem)),
+        Err(_) => true,
+    }
 }
 
 pub fn replay_sbf(case: &Value) -> bool {
